@@ -140,6 +140,66 @@ theorem hasIVProperty_iff (m : MRS) :
   unfold MRS.hasIVProperty
   rw [Bool.and_eq_true, hasCompleteIVs_iff, hasUniqueIVs_iff]
 
+/-- an EP has an ARG0 / is a quantifier, read off its argument list -/
+theorem iv_ne_none_iff (e : EP) : e.iv ≠ none ↔ ∃ v, (INTRINSIC_ROLE, v) ∈ e.args := by
+  unfold EP.iv
+  rw [← Option.isSome_iff_ne_none, dlookup_isSome_iff]
+  simp [dkeys]
+
+theorem isQuantifier_iff (e : EP) : e.isQuantifier = true ↔ ∃ v, (RESTRICTION_ROLE, v) ∈ e.args := by
+  unfold EP.isQuantifier
+  simp only [List.any_eq_true, beq_iff_eq]
+  constructor
+  · rintro ⟨⟨r, v⟩, hm, rfl⟩
+    exact ⟨v, hm⟩
+  · rintro ⟨v, hm⟩
+    exact ⟨(RESTRICTION_ROLE, v), hm, rfl⟩
+
+/-- uniqueness stated over POSITIONS of `rels` (independent of the `len(set(..)) == len(..)`
+implementation): no two different non-quantifier predications have the same ARG0. -/
+theorem hasUniqueIVs_positions (m : MRS) :
+    m.hasUniqueIVs = true ↔
+      ∀ (i j : Nat) (hi : i < m.rels.length) (hj : j < m.rels.length), i < j →
+        m.rels[i].isQuantifier = false → m.rels[j].isQuantifier = false →
+        ∀ v, m.rels[i].iv = some v → m.rels[j].iv ≠ some v := by
+  rw [hasUniqueIVs_iff]
+  unfold MRS.nonQuantIVs List.Nodup
+  rw [List.pairwise_filterMap, List.pairwise_iff_getElem]
+  constructor
+  · intro h i j hi hj hij hqi hqj v hvi hvj
+    exact h i j hi hj hij v (by simp [hqi, hvi]) v (by simp [hqj, hvj]) rfl
+  · intro h i j hi hj hij v hv w hw hvw
+    subst hvw
+    cases hqi : m.rels[i].isQuantifier <;> cases hqj : m.rels[j].isQuantifier <;>
+      simp [hqi, hqj] at hv hw
+    exact h i j hi hj hij hqi hqj v hv hw
+
+/-- "the intrinsic-variable tests equal their definitions", against an independent definition:
+every predication without an RSTR argument has an ARG0 argument, and the ARG0s of the predications
+without RSTR at two different positions differ. -/
+theorem hasIVProperty_spec (m : MRS) :
+    m.hasIVProperty = true ↔
+      ((∀ e ∈ m.rels, (¬ ∃ v, (RESTRICTION_ROLE, v) ∈ e.args) → ∃ v, (INTRINSIC_ROLE, v) ∈ e.args) ∧
+       (∀ (i j : Nat) (hi : i < m.rels.length) (hj : j < m.rels.length), i < j →
+          (¬ ∃ v, (RESTRICTION_ROLE, v) ∈ m.rels[i].args) →
+          (¬ ∃ v, (RESTRICTION_ROLE, v) ∈ m.rels[j].args) →
+          ∀ v, m.rels[i].iv = some v → m.rels[j].iv ≠ some v)) := by
+  unfold MRS.hasIVProperty
+  rw [Bool.and_eq_true, hasCompleteIVs_iff, hasUniqueIVs_positions]
+  have hq : ∀ e : EP, e.isQuantifier = false ↔ ¬ ∃ v, (RESTRICTION_ROLE, v) ∈ e.args := by
+    intro e
+    rw [← isQuantifier_iff]
+    cases e.isQuantifier <;> simp
+  constructor
+  · rintro ⟨h1, h2⟩
+    refine ⟨fun e he hn => (iv_ne_none_iff e).mp (h1 e he ((hq e).mpr hn)), ?_⟩
+    intro i j hi hj hij hni hnj
+    exact h2 i j hi hj hij ((hq _).mpr hni) ((hq _).mpr hnj)
+  · rintro ⟨h1, h2⟩
+    refine ⟨fun e he hqe => (iv_ne_none_iff e).mpr (h1 e he ((hq e).mp hqe)), ?_⟩
+    intro i j hi hj hij hqi hqj
+    exact h2 i j hi hj hij ((hq _).mp hqi) ((hq _).mp hqj)
+
 /-! ## 3. is_well_formed is exactly the conjunction -/
 
 /-- "is_well_formed is exactly the conjunction of connectedness, the
@@ -283,6 +343,45 @@ theorem representatives_nonempty_partial (m : MRS) (descs reps : List (Var × Li
   apply sortBy_ne_nil
   have hne : sc ≠ [] := ((mem_scopeMap m l' sc).mp hs).2
   exact candidates_ne_nil _ _ _ sc hne rank (hr sc hs)
+
+/-- the hypothesis `hacyc` of `representatives_nonempty_partial` is satisfiable on a scope with two
+members: `_b` takes `_a` as its ARG1, both labelled `h1`; `rank := position` decreases along the only
+`Blocks` edge (1 → 0), and `_a` is the representative. -/
+def exA : EP := { predicate := "_a_v_1", label := ⟨"h", 1⟩, args := [("ARG0", ⟨"e", 2⟩)] }
+def exB : EP := { predicate := "_b_a_1", label := ⟨"h", 1⟩, args := [("ARG0", ⟨"e", 3⟩), ("ARG1", ⟨"e", 2⟩)] }
+def exAB : MRS := { top := some ⟨"h", 0⟩, index := some ⟨"e", 2⟩, rels := [exA, exB],
+                    hcons := [⟨⟨"h", 0⟩, "qeq", ⟨"h", 1⟩⟩] }
+
+example : ∃ descs reps,
+    exAB.descendants = .ok descs ∧ exAB.representatives = .ok reps ∧
+    exAB.scopes.2 = [(⟨"h", 1⟩, [(⟨"e", 2⟩, exA), (⟨"e", 3⟩, exB)])] ∧
+    reps = [(⟨"h", 1⟩, [(⟨"e", 2⟩, exA)])] ∧
+    (∃ rank : Nat → Nat, ∀ sc, ((⟨"h", 1⟩ : Var), sc) ∈ exAB.scopes.2 → ∀ i j,
+        Blocks (fun p : Pred => p.1) exAB.nsArgs
+          (fun j => ((dlookup j descs).getD []).map (fun p : Pred => p.1)) sc i j →
+        rank j < rank i) := by
+  refine ⟨[(⟨"e", 2⟩, []), (⟨"e", 3⟩, [])], _, by rfl, by rfl, by rfl, by rfl, fun i => i, ?_⟩
+  intro sc hsc i j hb
+  have hs : exAB.scopes.2 = [(⟨"h", 1⟩, [(⟨"e", 2⟩, exA), (⟨"e", 3⟩, exB)])] := by rfl
+  rw [hs] at hsc
+  simp only [List.mem_singleton, Prod.mk.injEq, true_and] at hsc
+  subst hsc
+  obtain ⟨p, q, hp, hq, hne, h⟩ := hb
+  match i, j with
+  | 0, 0 => exact absurd rfl hne
+  | 1, 0 => exact Nat.zero_lt_one
+  | 0, 1 =>
+    exfalso
+    simp only [List.getElem?_cons_zero, Option.some.injEq] at hp
+    subst hp
+    have hargs : exAB.nsArgs (⟨"e", 2⟩, exA) = [] := by rfl
+    rw [hargs] at h
+    simp at h
+  | 1, 1 => exact absurd rfl hne
+  | i + 2, _ => simp at hp
+  | 0, j + 2 => simp at hq
+  | 1, j + 2 => simp at hq
+
 
 /-- the witness of finding F08: `h0 qeq h1`, two predications labelled `h1` taking
 each other as `ARG1`. -/
@@ -434,6 +533,23 @@ theorem dmrsDescendantsTotal (d : DMRS) (hnd : d.ids.Nodup) (sc : List (Var × L
         l.start ∈ d.ids ∧ l.stop ∈ dkeys (scopeLabelOf sc)) :
     ∃ r, d.descendantsWith sc = .ok r ∧ ∀ i ∈ d.ids, i ∈ dkeys r :=
   dmrs_descendantsWith_total d hnd sc hsc hlinks
+
+/-- the hypotheses of `dmrsDescendantsTotal` (`hnd`, `hsc`, `hlinks`) are satisfiable: a three-node
+DMRS with an RSTR/H link and an ARG1/NEQ link; the quantifier's descendants are its restriction. -/
+example :
+    let q : Node := { id := 10000, predicate := "_the_q" }
+    let n : Node := { id := 10001, predicate := "_dog_n_1", type := some "x" }
+    let v : Node := { id := 10002, predicate := "_bark_v_1", type := some "e" }
+    let d : DMRS := { top := some 10002, index := some 10002, nodes := [q, n, v],
+                      links := [⟨10000, 10001, "RSTR", "H"⟩, ⟨10002, 10001, "ARG1", "NEQ"⟩] }
+    let sc : List (Var × List Node) := [(⟨"h", 1⟩, [q]), (⟨"h", 2⟩, [n]), (⟨"h", 3⟩, [v])]
+    d.ids.Nodup ∧ (∀ s ∈ sc, ∀ n ∈ s.2, n.id ∈ d.ids) ∧
+    (∀ l ∈ d.links, (l.post = H_POST ∨ l.post = HEQ_POST) →
+        l.start ∈ d.ids ∧ l.stop ∈ dkeys (scopeLabelOf sc)) ∧
+    d.scopes = .ok (some ⟨"h", 3⟩, sc) ∧
+    d.descendantsWith sc = .ok [(10000, [n]), (10001, []), (10002, [])] ∧
+    d.representativesWith sc = .ok sc := by
+  refine ⟨by decide, by decide, by decide, by rfl, by rfl, by rfl⟩
 
 /-- "… and representatives always terminate, with each representative a member of its scope", on
 DMRS, for every scope map and for the model's own. -/
